@@ -49,7 +49,7 @@ def plan(src, items):
             pool = list(NEWNAMES)
             other = [x for x in names_in_doc if x != n[1] and x.isalpha() and x not in
                      ('item', 'begin', 'end', 'section', 'textbf', 'label', 'noindent', 'newcommand', 'renewcommand',
-                      'providecommand', 'equation', 'verbatim', 'lstlisting')]
+                      'providecommand', 'equation', 'verbatim', 'lstlisting', 'Verbatim', 'listing', 'verbatimtab')]
             if other:
                 pool.append(other[0])
             for new in pool:
@@ -80,7 +80,7 @@ def plan(src, items):
         if kind in ('E', 'M') and not (kind == 'E' and n[2]):
             body = n[3] if kind == 'E' else n[2]
             if len(body) == 1 and body[0][0] == 'T' and not body[0][1].isspace() and body[0][1] != '' \
-                    and n[1] not in ('verbatim', 'lstlisting'):
+                    and n[1] not in ('verbatim', 'lstlisting', 'Verbatim', 'listing', 'verbatimtab'):
                 for sv in STRINGS:
                     if sv == '' and kind == 'M' and n[1] == '$':
                         continue          # $$ would be the display-math switch (R7): not a well-formed result
@@ -149,7 +149,7 @@ def check_edit(acc, src, items, edit, want, size):
     T = egram.types()
     if isinstance(node.expr, T['TexCmd']) and info['old'] == 'item' and op == 'rename':
         skip_reparse = True
-    if op == 'rename' and info['old'] in ('verbatim', 'lstlisting', 'newcommand', 'renewcommand', 'providecommand'):
+    if op == 'rename' and info['old'] in ('verbatim', 'lstlisting', 'Verbatim', 'listing', 'verbatimtab', 'newcommand', 'renewcommand', 'providecommand'):
         skip_reparse = 'all'         # the old name selected a special reading (opaque body / definition mode)
     if op == 'args' and len(node.args) == 0:
         skip_reparse = True          # the following characters may now be read as part of the name / as arguments
